@@ -34,6 +34,10 @@ type EvalCtx struct {
 	binds map[string]TVal
 	errs  []string
 	depth int
+	// pol: +1 the clause is assumed (facts), -1 it is asserted (goals), 0 unknown. Used to drop the
+	// machine-range guard of unsigned bound variables in assumed universals (sound because values of
+	// unsigned types are always in range) which keeps instantiation independent of range facts.
+	pol int
 }
 
 func (c *EvalCtx) errf(format string, args ...interface{}) {
@@ -226,13 +230,22 @@ func (c *EvalCtx) eval(e *Expr) TVal {
 	case "call":
 		return c.evalCall(e)
 	case "unary":
-		v := c.eval(e.Args[0])
 		if e.Name == "!" {
+			n := *c
+			n.pol = -c.pol
+			n.errs = nil
+			v := n.eval(e.Args[0])
+			c.errs = append(c.errs, n.errs...)
 			return c.mk(not(v.T), sBool, types.Typ[types.Bool])
 		}
+		v := c.eval(e.Args[0])
 		return c.mk("(- "+v.T+")", v.S, v.Type)
 	case "cond":
-		cnd := c.boolTerm(e.Args[0])
+		nc := *c
+		nc.pol = 0
+		nc.errs = nil
+		cnd := nc.boolTerm(e.Args[0])
+		c.errs = append(c.errs, nc.errs...)
 		a, b := c.eval(e.Args[1]), c.eval(e.Args[2])
 		a, b = c.unifyNil(a, b)
 		return TVal{Val: Val{T: fr.def(a.S, ite(cnd, a.T, b.T)), S: a.S}, Type: a.Type}
@@ -258,6 +271,9 @@ func (c *EvalCtx) eval(e *Expr) TVal {
 		sub := c.with(binds)
 		body := sub.boolTerm(e.Args[0])
 		c.errs = append(c.errs, sub.errs...)
+		if (e.Op == "forall" && c.pol > 0) || (e.Op == "exists" && c.pol < 0) {
+			ranges = nil
+		}
 		if e.Op == "forall" {
 			if len(ranges) > 0 {
 				body = implies(and(ranges...), body)
@@ -304,9 +320,19 @@ func (c *EvalCtx) evalBinary(e *Expr) TVal {
 	case "||":
 		return c.mk(or(c.boolTerm(e.Args[0]), c.boolTerm(e.Args[1])), sBool, tb)
 	case "==>":
-		return c.mk(implies(c.boolTerm(e.Args[0]), c.boolTerm(e.Args[1])), sBool, tb)
+		n := *c
+		n.pol = -c.pol
+		n.errs = nil
+		l := n.boolTerm(e.Args[0])
+		c.errs = append(c.errs, n.errs...)
+		return c.mk(implies(l, c.boolTerm(e.Args[1])), sBool, tb)
 	case "<==>":
-		return c.mk(eq(c.boolTerm(e.Args[0]), c.boolTerm(e.Args[1])), sBool, tb)
+		n := *c
+		n.pol = 0
+		n.errs = nil
+		l, r := n.boolTerm(e.Args[0]), n.boolTerm(e.Args[1])
+		c.errs = append(c.errs, n.errs...)
+		return c.mk(eq(l, r), sBool, tb)
 	}
 	a, b := c.eval(e.Args[0]), c.eval(e.Args[1])
 	switch e.Name {
@@ -554,7 +580,7 @@ func (c *EvalCtx) evalIndex(e *Expr) TVal {
 	case *types.Slice:
 		h := w.ElemHeap(t.Elem())
 		srt := w.SortOf(t.Elem())
-		v := fr.def(srt, sel(sel(fr.heapCur(c.stOf(base), h), "(s-arr "+base.T+")"), "(+ (s-off "+base.T+") "+idx.T+")"))
+		v := fr.def(srt, w.At(t.Elem(), sel(fr.heapCur(c.stOf(base), h), "(s-arr "+base.T+")"), "(s-off "+base.T+")", idx.T))
 		return TVal{Val: Val{T: v, S: srt}, Type: t.Elem(), Snap: base.Snap}
 	case *types.Map:
 		vs := w.SortOf(t.Elem())
@@ -674,6 +700,44 @@ func (c *EvalCtx) evalCall(e *Expr) TVal {
 		}
 		c.errf("visited(): no such map range")
 		return c.mk("false", sBool, tb)
+	case "nvisited":
+		n := 1
+		if len(e.Args) == 1 {
+			n, _ = strconv.Atoi(e.Args[0].Name)
+		}
+		if c.f != nil {
+			cnt := 0
+			for _, b := range c.f.fn.Blocks {
+				for _, ins := range b.Instrs {
+					if r, ok := ins.(*ssa.Range); ok {
+						if _, isMap := r.X.Type().Underlying().(*types.Map); !isMap {
+							continue
+						}
+						cnt++
+						if cnt == n {
+							if v, ok := c.st.cells[cellKey{c.f.id, rangeCount{r}}]; ok {
+								return c.mk(v.T, sInt, ti)
+							}
+						}
+					}
+				}
+			}
+		}
+		c.errf("nvisited(): no such map range")
+		return c.mk("0", sInt, ti)
+	case "bitlen":
+		v := c.eval(e.Args[0])
+		return c.mk(sel(fr.heapCur(c.stOf(v), w.heap("BitLen", "(Array Int Int)")), "(s-arr "+v.T+")"), sInt, ti)
+	case "bit":
+		v := c.eval(e.Args[0])
+		j := c.eval(e.Args[1])
+		return c.mk(sel(sel(fr.heapCur(c.stOf(v), w.heap("BitSet", "(Array Int (Array Int Bool))")), "(s-arr "+v.T+")"), j.T), sBool, tb)
+	case "fresh":
+		v := c.eval(e.Args[0])
+		if v.S == sSlice {
+			return c.mk("(or (= (s-arr "+v.T+") 0) (> (s-arr "+v.T+") AllocBase))", sBool, tb)
+		}
+		return c.mk("(> "+v.T+" AllocBase)", sBool, tb)
 	case "isnil":
 		v := c.eval(e.Args[0])
 		switch v.S {
